@@ -49,7 +49,14 @@ def pick_len(r):
 def gen_case(seed, n):
     r = random.Random(f"C57:{seed}:{n}")
     c = {"n": n, "seed": seed}
-    c["muts"] = [(r.choice(MUTATIONS), r.randrange(1 << 30)) for _ in range(r.choice([1, 1, 2, 3]))]
+    # fault enumeration: the first mutation of case n is entry n of a seed-shuffled list of all (kind, variant) pairs,
+    # so ~len(ALL_VARIANTS) consecutive cases execute every pair once; further mutations are free PRNG choices
+    perm = list(ALL_VARIANTS)
+    random.Random(f"C57:{seed}:perm").shuffle(perm)
+    k0, v0 = perm[n % len(perm)]
+    c["muts"] = [(k0, v0, r.randrange(1 << 30))]
+    for _ in range(r.choice([0, 0, 1, 2])):
+        c["muts"].append((r.choice(MUTATIONS), None, r.randrange(1 << 30)))
     c["doublecheck"] = r.random() < 0.3              # squid -S
     c["early"] = r.random() < 0.3                    # query while the rebuild may still be running
     return c
@@ -126,9 +133,23 @@ class Image:
         return entries, chains, free
 
 
-def mutate(img, kind, mseed, chains, free):
-    """apply one mutation; returns the set of touched slot indices (db_header touches none)"""
+# number of value variants per mutation kind: the first mutation of the cases walks through all (kind, variant) pairs
+VARIANTS = {"next_self": 1, "next_cycle": 1, "next_cross": 1, "next_dangling": 7, "next_cut": 1, "first_change": 11,
+            "dup_to_free": 3, "dup_over": 2, "zero_slot": 1, "zero_header": 1, "zero_payload": 3, "garbage_header": 1,
+            "garbage_slot": 1, "entry_size": 9, "payload_size": 9, "version": 5, "key_cross": 2, "key_random": 1,
+            "swap_slots": 1, "truncate": 6, "db_header": 4, "meta_flip": 1, "meta_size": 16, "meta_flags": 4}
+assert sorted(VARIANTS) == sorted(MUTATIONS)
+ALL_VARIANTS = [(k, v) for k in MUTATIONS for v in range(VARIANTS[k])]
+
+
+def mutate(img, kind, variant, mseed, chains, free):
+    """apply one mutation (variant None: PRNG choice of the value); returns the set of touched slot indices"""
     r = random.Random(mseed)
+
+    def pick(options):
+        assert variant is None or len(options) == VARIANTS[kind] or kind == "meta_size", (kind, len(options))
+        return r.choice(options) if variant is None else options[variant % len(options)]
+
     full = [c for c in chains if c["inode"] is not None and c["order"]]
     multi = [c for c in full if len(c["order"]) >= 2]
     used = [s for c in chains for s in c["slots"]]
@@ -153,7 +174,7 @@ def mutate(img, kind, mseed, chains, free):
         img.set_cell(s, nextSlot=t)
         return {s}
     if kind == "next_dangling":
-        img.set_cell(s, nextSlot=r.choice(weird))
+        img.set_cell(s, nextSlot=pick(weird))
         return {s}
     if kind == "next_cut":
         ch = r.choice(multi or full)
@@ -161,14 +182,14 @@ def mutate(img, kind, mseed, chains, free):
         img.set_cell(s, nextSlot=-1)
         return {s}
     if kind == "first_change":
-        img.set_cell(s, firstSlot=r.choice([s, t, other["inode"], 0] + weird))
+        img.set_cell(s, firstSlot=pick([s, t, other["inode"], 0] + weird))
         return {s}
     if kind == "dup_to_free":
         if not free:
             return set()
         f = r.choice(free)
         img.data[img.off(f):img.off(f) + img.ss] = img.data[img.off(s):img.off(s) + img.ss]
-        how = r.choice(["as-is", "own-inode", "linked"])
+        how = pick(["as-is", "own-inode", "linked"])
         if how == "own-inode":
             img.set_cell(f, firstSlot=f)
         elif how == "linked":
@@ -176,7 +197,7 @@ def mutate(img, kind, mseed, chains, free):
         return {f}
     if kind == "dup_over":
         img.data[img.off(t):img.off(t) + img.ss] = img.data[img.off(s):img.off(s) + img.ss]
-        if r.random() < 0.5:
+        if pick([False, True]):
             img.set_cell(t, firstSlot=t)
         return {t}
     if kind == "zero_slot":
@@ -186,7 +207,7 @@ def mutate(img, kind, mseed, chains, free):
         img.data[img.off(s):img.off(s) + CELL.size] = bytes(CELL.size)
         return {s}
     if kind == "zero_payload":
-        k = r.choice([16, 200, img.ss - CELL.size])
+        k = pick([16, 200, img.ss - CELL.size])
         img.data[img.off(s) + CELL.size:img.off(s) + CELL.size + k] = bytes(k)
         return {s}
     if kind == "garbage_header":
@@ -199,20 +220,22 @@ def mutate(img, kind, mseed, chains, free):
         img.data[img.off(victim):img.off(victim) + img.ss] = r.randbytes(img.ss)
         return {victim}
     if kind == "entry_size":
+        if r.random() < 0.75:
+            s = ch["inode"]         # the rebuild reads entrySize from inode slots only
         cur = img.cell(s)[2]
-        img.set_cell(s, entrySize=r.choice([0, 1, cur + 1, max(0, cur - 1), cur + img.ss, 2 ** 63, 2 ** 64 - 1, 2 ** 64 - 2, r.getrandbits(40)]))
+        img.set_cell(s, entrySize=pick([0, 1, cur + 1, max(0, cur - 1), cur + img.ss, 2 ** 63, 2 ** 64 - 1, 2 ** 64 - 2, r.getrandbits(40)]))
         return {s}
     if kind == "payload_size":
         cur = img.cell(s)[3]
-        img.set_cell(s, payloadSize=r.choice([0, 1, cur + 1, max(0, cur - 1), img.ss - CELL.size, img.ss - CELL.size + 1, img.ss, 2 ** 32 - 1, 2 ** 31]))
+        img.set_cell(s, payloadSize=pick([0, 1, cur + 1, max(0, cur - 1), img.ss - CELL.size, img.ss - CELL.size + 1, img.ss, 2 ** 32 - 1, 2 ** 31]))
         return {s}
     if kind == "version":
         cur = img.cell(s)[4]
-        img.set_cell(s, version=r.choice([0, cur + 1, cur - 1, img.cell(t)[4], 2 ** 32 - 1]))
+        img.set_cell(s, version=pick([0, cur + 1, cur - 1, img.cell(t)[4], 2 ** 32 - 1]))
         return {s}
     if kind == "key_cross":
         ks = other["key"]
-        victims = ch["slots"] if r.random() < 0.5 else [s]
+        victims = ch["slots"] if pick([True, False]) else [s]
         for v in victims:
             img.set_cell(v, key0=ks[0], key1=ks[1])
         return set(victims)
@@ -227,12 +250,14 @@ def mutate(img, kind, mseed, chains, free):
         return {s, t}
     if kind == "truncate":
         cut_slot = r.choice(used)
-        cut = img.off(cut_slot) + r.choice([0, 1, CELL.size - 1, CELL.size, CELL.size + 50, img.ss - 1])
+        cut = img.off(cut_slot) + pick([0, 1, CELL.size - 1, CELL.size, CELL.size + 50, img.ss - 1])
         del img.data[cut:]
         return set(range(cut_slot, n))
     if kind == "db_header":
         a = r.randrange(HDR)
-        b = min(HDR, a + r.choice([1, 8, 64, HDR]))
+        b = min(HDR, a + pick([1, 8, 64, HDR]))
+        if b - a == HDR:
+            a, b = 0, HDR
         img.data[a:b] = r.randbytes(b - a)
         return set()
     if kind == "meta_flip":
@@ -251,11 +276,13 @@ def mutate(img, kind, mseed, chains, free):
         v = base_o + k + 5
         if kind == "meta_size":
             cur = struct.unpack_from("<Q", img.data, v + 32)[0]
-            struct.pack_into("<Q", img.data, v + 32, r.choice([0, 1, 2 ** 64 - 1, 2 ** 64 - 2, 2 ** 63, (cur + 1) & (2 ** 64 - 1), img.cell(s)[2] + 1, r.getrandbits(40)]))
-            if r.random() < 0.6:
+            vals = [0, 1, 2 ** 64 - 1, 2 ** 64 - 2, 2 ** 63, (cur + 1) & (2 ** 64 - 1), img.cell(s)[2] + 1, r.getrandbits(40)]
+            struct.pack_into("<Q", img.data, v + 32, pick(vals))
+            zero_entry_size = (r.random() < 0.6) if variant is None else (variant // len(vals)) % 2 == 1
+            if zero_entry_size:
                 img.set_cell(s, entrySize=0)
         else:
-            struct.pack_into("<H", img.data, v + 42, r.choice([0, 0xFFFF, 1 << r.randrange(16), r.getrandbits(16)]))
+            struct.pack_into("<H", img.data, v + 42, pick([0, 0xFFFF, 1 << r.randrange(16), r.getrandbits(16)]))
         return {s}
     raise ValueError(kind)
 
@@ -365,8 +392,8 @@ def run(a, res):
     def attempt(c):
         img = Image(template, slot_size)
         touched = set()
-        for kind, ms in sorted(c["muts"], key=lambda km: km[0] == "truncate"):      # truncation last
-            touched |= mutate(img, kind, ms, chains, free)
+        for kind, variant, ms in sorted(c["muts"], key=lambda km: km[0] == "truncate"):      # truncation last
+            touched |= mutate(img, kind, variant, ms, chains, free)
         touched_urls = {u for u, sl in entries.items() if sl & touched}
         sq = Squid(a.work, conf=CONF, cache_dirs=[rock])
         os.makedirs(sq.work + "/rock", exist_ok=True)
@@ -375,7 +402,7 @@ def run(a, res):
         chown_nobody(sq.work + "/rock")
         chown_nobody(sq.work + "/rock/rock")
         wit = {"seed": c["seed"], "case": c["n"]}
-        kinds = tuple(sorted(k for k, _ in c["muts"]))
+        kinds = (c["muts"][0][0], c["muts"][0][1]) + tuple(sorted(k for k, _, _ in c["muts"][1:]))
         served = {}         # path -> (rid, body_ok, body)
         outcome = {"rebuilt": False, "started": False}
         try:
